@@ -340,8 +340,133 @@ theorem retain_sublist (n : Nat) (ms : List Meta) : (retain n ms).Sublist ms := 
   · exact List.drop_sublist _ _
   · exact List.Sublist.refl _
 
-theorem newId_fixed {cfg : Cfg} (hl : cfg.legacy = false) (W : World) :
-    newId cfg W = ⟨W.clock, W.seq⟩ := by simp [newId, hl]
+/-! ### fix-C20b: the sequence number that skips existing checkpoint files -/
+
+theorem freeSeq_ge (fs : List (Id × Option (List Nat))) (ms fuel s : Nat) : s ≤ freeSeq fs ms fuel s := by
+  induction fuel generalizing s with
+  | zero => exact Nat.le_refl _
+  | succ n ih =>
+    simp only [freeSeq]
+    split
+    · exact Nat.le_trans (Nat.le_succ s) (ih (s + 1))
+    · exact Nat.le_refl _
+
+theorem freeSeq_id {fs : List (Id × Option (List Nat))} {ms s : Nat} (fuel : Nat)
+    (h : isFile (fget fs ⟨ms, s⟩) = false) : freeSeq fs ms fuel s = s := by
+  cases fuel with
+  | zero => rfl
+  | succ n => simp [freeSeq, h]
+
+/-- number of checkpoint files of millisecond `ms` with a sequence number from `s` on -/
+def fileCnt (fs : List (Id × Option (List Nat))) (ms s : Nat) : Nat :=
+  fs.countP (fun p => decide (p.1.ms = ms) && decide (s ≤ p.1.seq) && isFile (some p.2))
+
+theorem isFile_mem {fs : List (Id × Option (List Nat))} {i : Id} (h : isFile (fget fs i) = true) :
+    ∃ c, (i, c) ∈ fs ∧ isFile (some c) = true := by
+  induction fs with
+  | nil => simp [fget, isFile] at h
+  | cons p r ih =>
+    obtain ⟨j, c⟩ := p
+    by_cases hj : j = i
+    · subst hj
+      simp only [fget, if_true] at h
+      exact ⟨c, List.mem_cons_self .., h⟩
+    · simp only [fget, hj, if_false] at h
+      obtain ⟨c', hm, hc⟩ := ih h
+      exact ⟨c', List.mem_cons_of_mem _ hm, hc⟩
+
+theorem countP_lt_of_witness {α : Type} (p q : α → Bool) (l : List α) (himp : ∀ x, q x = true → p x = true)
+    (x : α) (hx : x ∈ l) (hp : p x = true) (hq : q x = false) : l.countP q < l.countP p := by
+  induction l with
+  | nil => simp at hx
+  | cons y r ih =>
+    have hle : r.countP q ≤ r.countP p := List.countP_mono_left (fun a _ h => himp a h)
+    rcases List.mem_cons.mp hx with e | hm
+    · subst e
+      rw [List.countP_cons_of_pos hp, List.countP_cons_of_neg (by simp [hq])]
+      omega
+    · have := ih hm
+      by_cases hqy : q y = true
+      · rw [List.countP_cons_of_pos hqy, List.countP_cons_of_pos (himp y hqy)]; omega
+      · rw [List.countP_cons_of_neg hqy]
+        by_cases hpy : p y = true
+        · rw [List.countP_cons_of_pos hpy]; omega
+        · rw [List.countP_cons_of_neg hpy]; exact this
+
+theorem fileCnt_lt {fs : List (Id × Option (List Nat))} {ms s : Nat} (h : isFile (fget fs ⟨ms, s⟩) = true) :
+    fileCnt fs ms (s + 1) < fileCnt fs ms s := by
+  obtain ⟨c, hm, hc⟩ := isFile_mem h
+  unfold fileCnt
+  apply countP_lt_of_witness _ _ fs _ (⟨ms, s⟩, c) hm
+  · simp [hc]
+  · simp; intro h; omega
+  · intro x hx
+    simp only [Bool.and_eq_true, decide_eq_true_eq] at hx ⊢
+    exact ⟨⟨hx.1.1, by omega⟩, hx.2⟩
+
+theorem freeSeq_free_fuel (fs : List (Id × Option (List Nat))) (ms fuel s : Nat) (h : fileCnt fs ms s ≤ fuel) :
+    isFile (fget fs ⟨ms, freeSeq fs ms fuel s⟩) = false := by
+  induction fuel generalizing s with
+  | zero =>
+    simp only [freeSeq]
+    cases hf : isFile (fget fs ⟨ms, s⟩) with
+    | false => rfl
+    | true => have := fileCnt_lt hf; omega
+  | succ n ih =>
+    simp only [freeSeq]
+    cases hf : isFile (fget fs ⟨ms, s⟩) with
+    | false => simp [hf]
+    | true =>
+      simp only [if_true]
+      exact ih (s + 1) (by have := fileCnt_lt hf; omega)
+
+/-- **freeSeq_free.** With as much fuel as the directory has entries the search always ends on a free number: the id
+`checkpoint` picks never names an existing checkpoint file - whatever the directory holds. -/
+theorem freeSeq_free (fs : List (Id × Option (List Nat))) (ms s : Nat) :
+    isFile (fget fs ⟨ms, freeSeq fs ms fs.length s⟩) = false :=
+  freeSeq_free_fuel fs ms fs.length s (List.countP_le_length)
+
+theorem newId_ms_seq {cfg : Cfg} (hl : cfg.legacy = false) (W : World) :
+    (newId cfg W).ms = W.clock ∧ W.seq ≤ (newId cfg W).seq := by
+  unfold newId
+  rw [if_neg (by simp [hl])]
+  split
+  · exact ⟨rfl, Nat.le_refl _⟩
+  · exact ⟨rfl, freeSeq_ge _ _ _ _⟩
+
+/-- in a world whose directory holds nothing at or beyond the store's own sequence number in the current millisecond
+(every world reachable from `init`: `Inv.fs_seq`) the search does not move: the id is `<clock>_<seq>` as before the fix -/
+theorem newId_fixed {cfg : Cfg} (hl : cfg.legacy = false) {W : World}
+    (h : ∀ i, fget W.fs i ≠ none → i.seq < W.seq ∨ i.ms < W.clock) :
+    newId cfg W = ⟨W.clock, W.seq⟩ := by
+  unfold newId
+  rw [if_neg (by simp [hl])]
+  split
+  · rfl
+  · have hnone : fget W.fs ⟨W.clock, W.seq⟩ = none := by
+      cases hf : fget W.fs ⟨W.clock, W.seq⟩ with
+      | none => rfl
+      | some x =>
+        have := h ⟨W.clock, W.seq⟩ (by rw [hf]; simp)
+        simp at this
+    rw [freeSeq_id _ (by rw [hnone]; rfl)]
+
+theorem nextSeq_fixed {cfg : Cfg} (hl : cfg.legacy = false) {W : World}
+    (h : ∀ i, fget W.fs i ≠ none → i.seq < W.seq ∨ i.ms < W.clock) : nextSeq cfg W = W.seq + 1 := by
+  unfold nextSeq
+  rw [if_neg (by simp [hl]), newId_fixed hl h]
+
+theorem nextSeq_eq {cfg : Cfg} (hl : cfg.legacy = false) (W : World) : nextSeq cfg W = (newId cfg W).seq + 1 := by
+  unfold nextSeq
+  rw [if_neg (by simp [hl])]
+
+theorem nextSeq_gt (cfg : Cfg) (W : World) : W.seq < nextSeq cfg W := by
+  unfold nextSeq
+  split
+  · omega
+  · rename_i hl
+    have := (newId_ms_seq (cfg := cfg) (by simpa using hl) W).2
+    omega
 
 /-- every op other than `checkpoint` leaves sequence number, metadata and directory alone -/
 theorem step_frame (c : Codec) (cfg : Cfg) (W : World) (op : Op) (h : op ≠ .checkpoint) :
@@ -417,10 +542,11 @@ theorem inv_step (c : Codec) {cfg : Cfg} (hl : cfg.legacy = false) {W : World} (
     Inv (step c cfg W op).1 := by
   by_cases hop : op = .checkpoint
   · subst hop
-    have hid := newId_fixed hl W
+    have hid := newId_fixed hl h.fs_seq
+    have hns := nextSeq_fixed hl h.fs_seq
     refine ⟨h.store_nodup, ?_, ?_, ?_⟩
     · intro j hj
-      simp only [step, checkpoint] at hj ⊢
+      simp only [step, checkpoint, hns] at hj ⊢
       by_cases hf : cfg.file = true
       · simp only [hf, if_true, ck_fs_final] at hj
         by_cases hjn : j = newId cfg W
@@ -431,7 +557,7 @@ theorem inv_step (c : Codec) {cfg : Cfg} (hl : cfg.legacy = false) {W : World} (
       · simp only [hf] at hj
         exact (h.fs_seq j hj).imp Nat.lt_succ_of_lt id
     · intro m hm
-      simp only [step, checkpoint] at hm ⊢
+      simp only [step, checkpoint, hns] at hm ⊢
       have := (retain_sublist _ _).subset hm
       simp only [List.mem_append, List.mem_singleton] at this
       rcases this with hm' | hm'
@@ -464,6 +590,59 @@ theorem inv_run (c : Codec) {cfg : Cfg} (hl : cfg.legacy = false) {W : World} (h
 
 
 
+/-- the part of the invariant that does not speak about the directory: it holds for a store opened on ANY directory
+(`reopen`), where `fs_seq` need not -/
+structure InvR (W : World) : Prop where
+  store_nodup : (W.store.map (·.1)).Nodup
+  metas_seq : ∀ m ∈ W.metas, m.id.seq < W.seq
+  metas_nodup : (W.metas.map (·.id)).Nodup
+
+theorem Inv.toR {W : World} (h : Inv W) : InvR W := ⟨h.store_nodup, h.metas_seq, h.metas_nodup⟩
+
+theorem invR_step (c : Codec) {cfg : Cfg} (hl : cfg.legacy = false) {W : World} (h : InvR W) (op : Op) :
+    InvR (step c cfg W op).1 := by
+  by_cases hop : op = .checkpoint
+  · subst hop
+    have hge := (newId_ms_seq hl W).2
+    have hns := nextSeq_eq hl W
+    refine ⟨h.store_nodup, ?_, ?_⟩
+    · intro m hm
+      simp only [step, checkpoint, hns] at hm ⊢
+      have := (retain_sublist _ _).subset hm
+      simp only [List.mem_append, List.mem_singleton] at this
+      rcases this with hm' | hm'
+      · have := h.metas_seq m hm'; omega
+      · rw [hm']; simp
+    · simp only [step, checkpoint]
+      have hsub := (retain_sublist cfg.maxCk (W.metas ++ [⟨newId cfg W, (live W.store W.clock).length⟩])).map (·.id)
+      refine List.Nodup.sublist hsub ?_
+      simp only [List.map_append, List.map_cons, List.map_nil]
+      rw [List.nodup_append]
+      refine ⟨h.metas_nodup, by simp, ?_⟩
+      intro a ha b hb
+      simp only [List.mem_singleton] at hb
+      intro e; subst e; subst hb
+      obtain ⟨m, hm, hme⟩ := List.mem_map.mp ha
+      have := h.metas_seq m hm
+      rw [hme] at this; omega
+  · obtain ⟨h1, h2, h3⟩ := step_frame c cfg W op hop
+    refine ⟨step_store_nodup c cfg W op h.store_nodup, ?_, ?_⟩
+    · rw [h1, h2]; exact h.metas_seq
+    · rw [h2]; exact h.metas_nodup
+
+theorem invR_run (c : Codec) {cfg : Cfg} (hl : cfg.legacy = false) {W : World} (h : InvR W)
+    (ops : List Op) : InvR (run c cfg W ops) := by
+  induction ops generalizing W with
+  | nil => exact h
+  | cons op r ih => exact ih (invR_step c hl h op)
+
+/-- fix-C20b: the id `checkpoint` picks on the file backend never names an existing checkpoint file -/
+theorem newId_free {cfg : Cfg} (hl : cfg.legacy = false) (hf : cfg.file = true) (hs : cfg.noSkip = false) (W : World) :
+    isFile (fget W.fs (newId cfg W)) = false := by
+  unfold newId
+  rw [if_neg (by simp [hl]), if_neg (by simp [hf, hs])]
+  exact freeSeq_free _ _ _
+
 /-! ### following one checkpoint through the rest of a history -/
 
 /-- checkpoint `i` (written with content `bytes`) is either still listed with its file intact,
@@ -494,14 +673,14 @@ theorem retain_small {maxCk : Nat} {ms : List Meta} (x : Meta) (h : ¬ ms.length
   unfold retain; rw [if_neg (by simpa using h)]
 
 theorem tracks_checkpoint (c : Codec) {cfg : Cfg} (hl : cfg.legacy = false) (hf : cfg.file = true)
-    {W : World} (h : Inv W) {i : Id} {bytes : List Nat} (ht : Tracks i bytes W) :
+    {W : World} (h : InvR W) {i : Id} {bytes : List Nat} (ht : Tracks i bytes W) :
     Tracks i bytes (checkpoint c cfg W).1 := by
   obtain ⟨hseq, hcase⟩ := ht
-  have hid := newId_fixed hl W
+  have hge := (newId_ms_seq hl W).2
   have hne : i ≠ newId cfg W := by
-    intro e; rw [hid] at e; rw [e] at hseq; simp at hseq
+    intro e; rw [← e] at hge; omega
   have hne' : ¬ newId cfg W = i := fun e => hne e.symm
-  refine ⟨by simp only [checkpoint]; omega, ?_⟩
+  refine ⟨by simp only [checkpoint]; have := nextSeq_gt cfg W; omega, ?_⟩
   simp only [checkpoint, hf, if_true, ck_fs_final]
   by_cases hlen : W.metas.length + 1 > cfg.maxCk
   · -- retention removes the oldest
@@ -538,7 +717,7 @@ theorem tracks_checkpoint (c : Codec) {cfg : Cfg} (hl : cfg.legacy = false) (hf 
     simpa using hcase
 
 theorem tracks_step (c : Codec) {cfg : Cfg} (hl : cfg.legacy = false) (hf : cfg.file = true)
-    {W : World} (h : Inv W) {i : Id} {bytes : List Nat} (ht : Tracks i bytes W) (op : Op) :
+    {W : World} (h : InvR W) {i : Id} {bytes : List Nat} (ht : Tracks i bytes W) (op : Op) :
     Tracks i bytes (step c cfg W op).1 := by
   by_cases hop : op = .checkpoint
   · subst hop; exact tracks_checkpoint c hl hf h ht
@@ -546,22 +725,22 @@ theorem tracks_step (c : Codec) {cfg : Cfg} (hl : cfg.legacy = false) (hf : cfg.
     unfold Tracks; rw [h1, h2, h3]; exact ht
 
 theorem tracks_run (c : Codec) {cfg : Cfg} (hl : cfg.legacy = false) (hf : cfg.file = true)
-    {W : World} (h : Inv W) {i : Id} {bytes : List Nat} (ht : Tracks i bytes W) (ops : List Op) :
+    {W : World} (h : InvR W) {i : Id} {bytes : List Nat} (ht : Tracks i bytes W) (ops : List Op) :
     Tracks i bytes (run c cfg W ops) := by
   induction ops generalizing W with
   | nil => exact ht
-  | cons op r ih => exact ih (inv_step c hl h op) (tracks_step c hl hf h ht op)
+  | cons op r ih => exact ih (invR_step c hl h op) (tracks_step c hl hf h ht op)
 
 /-- right after `checkpoint` the new id is tracked with the serialised snapshot -/
 theorem tracks_new (c : Codec) {cfg : Cfg} (hl : cfg.legacy = false) (hf : cfg.file = true)
-    {W : World} (h : Inv W) :
+    {W : World} (h : InvR W) :
     Tracks (checkpoint c cfg W).2 (c.ser (live W.store W.clock)) (checkpoint c cfg W).1 := by
-  have hid := newId_fixed hl W
+  have hge := (newId_ms_seq hl W).2
   have hfresh : ∀ m ∈ W.metas, m.id ≠ newId cfg W := by
     intro m hm e
     have := h.metas_seq m hm
-    rw [e, hid] at this; simp at this
-  refine ⟨by simp [checkpoint, hid], ?_⟩
+    rw [e] at this; omega
+  refine ⟨by simp [checkpoint, nextSeq_eq hl], ?_⟩
   simp only [checkpoint, hf, if_true, ck_fs_final]
   by_cases hlen : W.metas.length + 1 > cfg.maxCk
   · rw [retain_big _ hlen]
@@ -604,7 +783,7 @@ theorem step_ckpt_out {c : Codec} {cfg : Cfg} {W : World} {op : Op} {i : Id}
 theorem step_seq_mono (c : Codec) (cfg : Cfg) (W : World) (op : Op) :
     W.seq ≤ (step c cfg W op).1.seq := by
   by_cases hop : op = .checkpoint
-  · subst hop; simp [step, checkpoint]
+  · subst hop; simp only [step, checkpoint]; exact Nat.le_of_lt (nextSeq_gt cfg W)
   · rw [(step_frame c cfg W op hop).1]; exact Nat.le_refl _
 
 theorem ckIds_fresh (c : Codec) {cfg : Cfg} (hl : cfg.legacy = false) (W : World) (ops : List Op) :
@@ -619,15 +798,17 @@ theorem ckIds_fresh (c : Codec) {cfg : Cfg} (hl : cfg.legacy = false) (W : World
     · rename_i i hi
       obtain ⟨hop, hid⟩ := step_ckpt_out hi
       subst hop
-      have hseq : (step c cfg W .checkpoint).1.seq = W.seq + 1 := by simp [step, checkpoint]
-      rw [newId_fixed hl] at hid
+      have hseq : (step c cfg W .checkpoint).1.seq = i.seq + 1 := by
+        simp [step, checkpoint, nextSeq_eq hl, hid]
+      have hge := (newId_ms_seq hl W).2
+      rw [← hid] at hge
       refine ⟨List.nodup_cons.mpr ⟨?_, ih1⟩, ?_⟩
       · intro hm
         have := ih2 i hm
-        rw [hseq, hid] at this; exact Nat.not_succ_le_self _ this
+        rw [hseq] at this; exact Nat.not_succ_le_self _ this
       · intro j hj
         rcases List.mem_cons.mp hj with e | hj
-        · rw [e, hid]; exact Nat.le_refl _
+        · rw [e]; exact hge
         · exact Nat.le_trans hmono (ih2 j hj)
     · exact ⟨ih1, fun j hj => Nat.le_trans hmono (ih2 j hj)⟩
 
